@@ -712,6 +712,9 @@ class RecTileManager(object):
         self.partial = spec['partial']
         self.salt = spec['salt']
         self.minimize_meta_requests = True
+        # attributes of the real TileManager that seed_task() reads and writes
+        self._expire_timestamp = None
+        self._refresh_before = {}
         self.cleanups = 0
         self.asked = 0
 
